@@ -134,4 +134,68 @@ def editStats (al : List (Option α × Option α)) : Nat × Nat × Nat × Nat ×
   let nsub := nphn - ncor - ndel
   (nphn, ncor, nins, ndel, nsub)
 
+/-! ### Substring variant (`levenshtein_distance_substring`)
+
+    if len(target) > len(source): target, source = source, target
+    dist = arange(|t|+2) * ins ; dist[-1] = dist[-2]
+    for s in source:
+        dist[1:-1] = minimum(dist[1:-1] + del, dist[:-2] + (target != s) * sub)
+        sweep over cells 1..|t|        -- dist[0] stays 0: the match may start anywhere
+        dist[-1] = minimum(dist[-1], dist[-2])
+    return dist[-1]
+
+The model keeps the extra last cell separately as `best`. -/
+
+def rowStepSub (c : Costs) (t : List α) (row : List Cell) (s : α) : List Cell :=
+  (0, Tag.del) :: stepAux c s 0 row t
+
+def lastVal (row : List Cell) : Nat :=
+  match row.getLast? with
+  | some x => x.1
+  | none => 0
+
+def subLoop (c : Costs) (t : List α) : List Cell → Nat → List α → Nat
+  | _, best, [] => best
+  | row, best, s :: ss =>
+    let row' := rowStepSub c t row s
+    subLoop c t row' (min best (lastVal row')) ss
+
+def orient (s t : List α) : List α × List α :=
+  if t.length > s.length then (t, s) else (s, t)
+
+def distSub (c : Costs) (s t : List α) : Nat :=
+  let (src, tgt) := orient s t
+  subLoop c tgt (initRow c tgt) (tgt.length * c.ins) src
+
+/-! ### `ErrorsSummary` (numeric fields) -/
+
+structure Summary where
+  lines : Nat
+  refLen : Nat
+  errors : Nat
+  subs : Nat
+  inss : Nat
+  dels : Nat
+deriving DecidableEq, Repr
+
+def Summary.zero : Summary := ⟨0, 0, 0, 0, 0, 0⟩
+
+def Summary.add (a b : Summary) : Summary :=
+  ⟨a.lines + b.lines, a.refLen + b.refLen, a.errors + b.errors, a.subs + b.subs, a.inss + b.inss,
+   a.dels + b.dels⟩
+
+def unit : Costs := { sub := 1, ins := 1, del := 1 }
+
+/-- `ErrorsSummary.from_lists(ref, hyp)`: distance of `(ref, hyp)`, stats of the alignment of
+`(hyp, ref)`. -/
+def Summary.fromLists (ref hyp : List α) : Option Summary :=
+  match alignment unit hyp ref with
+  | none => none
+  | some al =>
+    let (_, _, nins, ndel, nsub) := editStats al
+    some ⟨1, ref.length, dist unit ref hyp, nsub, nins, ndel⟩
+
+/-- `ErrorsSummary.aggregate`: the accumulation loop. -/
+def Summary.aggregate (xs : List Summary) : Summary := xs.foldl Summary.add Summary.zero
+
 end Lev
